@@ -43,6 +43,8 @@ def run(ctx):
     quick = ctx.quick()
     cases, meta = [], []
 
+    storage = {"i": 0}
+
     def attempt(mk, n, p, nan):
         """-> ('completed' | 'ValueError' | 'other:<Class>', stage, message)"""
         stage = "construct"
@@ -51,6 +53,17 @@ def run(ctx):
             X = pd.DataFrame(rng.normal(size=(max(n, 0), p)) * 2 + np.arange(max(n, 0)).reshape(-1, 1) * 0.01)
             if nan and n > 0:
                 X.iloc[n // 2, p - 1] = np.nan
+            # the same numbers in other column storages (every 7th attempt): pandas nullable Float64, object dtype, integer-valued nullable Int64 next to float64
+            storage["i"] += 1
+            if n > 0 and storage["i"] % 7 == 0:
+                kind_s = (storage["i"] // 7) % 2
+                if kind_s == 0:
+                    X = X.astype("Float64")          # np.nan becomes pd.NA
+                elif p >= 2:
+                    X[0] = (X[0].fillna(0).round() + np.arange(n) % 3).astype("Int64")
+                # (object-dtype columns are outside the numeric dtypes the properties quantify over: PELT(GaussianCovCost) raises AttributeError
+                #  inside np.cov on them -- noted in DESIGN.md, not part of this grid)
+                ctx.count("storage", ["Float64", "Int64+float64"][kind_s])
             stage = "fit"
             d.fit(X)
             stage = "predict"
